@@ -398,6 +398,9 @@ func (c02child) stress(seed int64, senders, per int, mode string) string {
 
 func yield() { time.Sleep(0) }
 
+// one socket-less processor for all c02.multi ops of a child (a fresh one per op leaks its statistics scopes)
+var c02multi = &c20{}
+
 func (c c02child) Exec(op string) string {
 	f := hx.Fields(op)
 	if len(f) < 2 {
@@ -409,7 +412,7 @@ func (c c02child) Exec(op string) string {
 	case "c02.multi":
 		// a history of (split) requests through the real request path on the socket-less processor (the c20.rq script language):
 		// every downstream request must be answered exactly once (a second completion panics)
-		out := recoverStr(func() string { return (&c20{}).execRq(f[1:]) })
+		out := recoverStr(func() string { return c02multi.execRq(f[1:]) })
 		switch {
 		case strings.HasPrefix(out, "panic") || strings.Contains(out, "panic"):
 			return "twice " + out
